@@ -159,6 +159,26 @@ def Verifier.verify (v : Verifier) (buf : Bytes) (rdok parseOK : Bool) : Outcome
   | .err => .err
   | .panic m => .panic m
 
+/-- One `TSigVerifier` fed a sequence of messages (a multi-message reply): a rejected message
+leaves the verifier as it was (the Rust updates `previous_signature` / `remote_time` only on
+acceptance), an accepted one chains its MAC and time into the state.  Returns the final state and
+the verdict per message. -/
+def Verifier.verifySeq (v : Verifier) : List (Bytes × Bool × Bool) → Outcome (Verifier × List Bool)
+  | [] => .ok (v, [])
+  | (buf, rdok, parseOK) :: rest =>
+    match v.verify buf rdok parseOK with
+    | .ok v' =>
+      match v'.verifySeq rest with
+      | .ok (vf, vs) => .ok (vf, true :: vs)
+      | .err => .err
+      | .panic m => .panic m
+    | .err =>
+      match v.verifySeq rest with
+      | .ok (vf, vs) => .ok (vf, false :: vs)
+      | .err => .err
+      | .panic m => .panic m
+    | .panic m => .panic m
+
 /-! ### client: which requests are signed (`TSigner::should_sign_message`) -/
 
 /-- the query types of the `qd` questions starting at `pos` (`none` if they cannot be read) -/
